@@ -752,6 +752,9 @@ class C12:
         cfg["npkeys"] = rc.random() < 0.4      # numpy integer / numpy string / bool item keys
         if cfg["npkeys"]:
             cfg["weights"]["load"] = 0
+        # beside the simulated containers: one of the manager's own default containers (Manager.ref() without a
+        # container) holding an element that points back to it - reference cycles are what real element trees look like
+        cfg["attrdict_side"] = rc.random() < 0.3
         spec = gen_spec(rng_for(ctx.seed, "C12", run, "spec"), cfg)
         hg = HistoryGen(rng_for(ctx.seed, "C12", run, "ops"), cfg, spec)
         ops = hg.history()
@@ -769,6 +772,28 @@ class C12:
         other = None          # (mode, world, snapshot or None)
         restarts = 0
         i = -1
+        side = None
+        if cfg.get("attrdict_side"):
+            side = "z" + cfg["salt"]
+            zr = ex.world.mgr.ref(label=side)
+            zr["top"] = 1.5
+            zr["elem"] = type(zr._owner)()
+            zr["elem"]["up"] = zr._owner
+            zr["elem"]["len"] = zr["top"] * 2
+            ex.count("default_container_with_cycle")
+
+        def check_side(where, m1, m2):
+            c1, c2 = m1.containers[side]._owner, m2.containers[side]._owner
+            if c1 is c2 or c1["elem"] is c2["elem"]:
+                raise Violation(prop + ".shared", "%s: the manager's own container %s is shared with the original" % (where, side))
+            if type(c2) is not type(c1) or sorted(c2) != sorted(c1) or c2["elem"]["up"] is not c2 or \
+                    not same(c2["top"], c1["top"]) or not same(c2["elem"]["len"], c1["elem"]["len"]):
+                raise Violation(prop + ".side_container", "%s: the manager's own container %s was not restored as it was" % (where, side))
+            m2.containers[side]["top"] = c2["top"] + 1.0
+            if not same(c2["elem"]["len"], (c1["top"] + 1.0) * 2) or not same(c1["elem"]["len"], c1["top"] * 2):
+                raise Violation(prop + ".side_container", "%s: an assignment in the restored %s gives %r there and %r in the original"
+                                % (where, side, c2["elem"]["len"], c1["elem"]["len"]))
+            m1.containers[side]["top"] = c1["top"] + 1.0
 
         def finish_other(where):
             nonlocal other
@@ -805,6 +830,8 @@ class C12:
                     if mgr2 is w.mgr or any(roots2[k] is w.rootobj[k] for k in roots2):
                         raise Violation(prop + ".shared", "%s: the restored manager shares objects with the original" % where)
                     compare_expr_pairwise(prop, w.mgr, mgr2, where)
+                    if side is not None:
+                        check_side(where, w.mgr, mgr2)
                     tr, exc = run_traced(lambda: mgr2.verify())
                     if exc is not None:
                         raise Violation(prop + ".verify", "%s: verify() of the restored manager raised %s: %s" % (where, type(exc).__name__, exc))
